@@ -115,7 +115,7 @@ CURATED = {
     # plain nesting, all headed, every strategy somewhere; no orthogonal (exercises the no-ortho registry)
     'k_compo_all': C('Composite', C('Resumable', L, L, L), C('Selectable', L, C('Composite', L, L), L), C('Utilitarian', L, C('Random', L, L, L), L), C('Random', L, L, C('Utilitarian', L, L)), L),
     # orthogonal root, headed regions
-    'k_ortho_root': O(C('Composite', L, L, C('Resumable', L, L)), C('Resumable', L, C('Composite', L, L)), L),
+    'k_ortho_root': O(C('Composite', L, L, C('Resumable', L, L)), C('Selectable', L, C('Composite', L, L), L), C('Resumable', L, L), L),
     # orthogonal region with plain-state siblings below a composite root (consume among leaf siblings; forward exit guard)
     'k_ortho_leafs': C('Composite', O(L, L, L), O(C('Composite', L, L), L), L),
     # headless everywhere (no select / utility kinds)
@@ -143,6 +143,10 @@ CURATED = {
     # width-1 regions (no save/load)
     'k_width1': C('Composite', C('Composite', L), C('Resumable', C('Composite', L, L)), L),
 }
+
+# configuration fixed for some curated shapes (the rest is drawn): an orthogonal root with a selectable prong under manual activation
+# (regions no replayed request addresses are resolved by replayEnter()'s own root request only)
+CURATED_CFG = {'k_ortho_root': {'manual': 1}}
 
 # larger shapes used by the thorough tier only (compile time)
 CURATED_BIG = {
@@ -330,7 +334,8 @@ def shape_set(seed, n_random, curated=None, cfg_variants=True, big=(), **kw):
     for nm in names:
         spec = CURATED[nm]
         nodes, _ = number(spec)
-        out.append(shape_json(nm, spec, cfg_for(nm, nodes)))
+        c = cfg_for(nm, nodes); c.update(CURATED_CFG.get(nm, {}) if cfg_variants else {})
+        out.append(shape_json(nm, spec, c))
     for nm in big:
         spec = CURATED_BIG[nm]
         nodes, _ = number(spec)
